@@ -240,10 +240,11 @@ theorem conv_delimitedObject (vt vs : Variant) (name : Str) (kvs : List (Str × 
   exact dec_kvs 44 (by decide) kvs hd
 
 theorem conv_labelPrimitive (vt vs : Variant) (name : Str) (p : Prim) (w : Str)
-    (hd : truthyPrim p = true) (hs : StrOk vs (.prim p)) (hw : convStr vt vs name .labelPrimitive (.prim p) = some w) :
+    (hd : p ≠ .null) (hs : StrOk vs (.prim p)) (hw : convStr vt vs name .labelPrimitive (.prim p) = some w) :
     decodeShape name .labelPlain w = some (coerce (.prim p)) := by
-  simp only [convStr, hd, if_true, Option.some.injEq] at hw
-  subst hw
+  have hw' : w = 46 :: itemStr vs p := by
+    cases p <;> simp_all [convStr]
+  subst hw'
   rw [itemStr_spell vs p hs]
   simp [decodeShape, stripPrefix_cons, coerce]
 
